@@ -61,6 +61,7 @@ pub fn dispatch(kind: &str, v: &Value) -> Option<Outcome> {
     match kind {
         "history" => serde_json::from_value::<HistCase>(v.clone()).ok().map(|c| c.run()),
         "fan-in" => serde_json::from_value::<crate::scale::FanInCase>(v.clone()).ok().map(|c| c.run()),
+        "model-route" => serde_json::from_value::<crate::modelroute::ModelRouteCase>(v.clone()).ok().map(|c| c.run()),
         _ => None,
     }
 }
@@ -97,6 +98,11 @@ pub fn campaigns(ctx: &Ctx) -> Stats {
         cfg.max_steps = t.pick(14, 30);
         let cfg = cfg.with_profile(p, t == Tier::Thorough, crate::exec::IS_F32);
         st.merge(ctx.run_prop(name, profile_total(t, p), move || recipe_strategy(12), move |r| Some(HistCase { oracle: "c01".into(), hist: elaborate(&cfg, r) })));
+    }
+    // programs that go through Model (tracked inputs and targets, targets that are results themselves)
+    {
+        let rc = crate::modelroute::route_cases("c01", ctx.seed, t == Tier::Thorough);
+        st.merge(ctx.run_indexed("through-model-vs-by-hand", rc.len() as u64, None, |i| Some(rc[i as usize].clone())));
     }
     {
         let fan = crate::scale::fan_in_cases("c01", t == Tier::Thorough);
